@@ -6,6 +6,7 @@ package interp
 // injective per type.
 
 import (
+	"encoding/base64"
 	"fmt"
 	"go/types"
 	"reflect"
@@ -200,6 +201,19 @@ func deepCopy(m copyMode, t types.Type, v value, depth int) value {
 			case *types.Basic:
 				if b := x.t.Underlying().(*types.Basic); b.Kind() == types.String || b.Kind() == types.Bool {
 					return x
+				}
+			}
+			if sl, ok := x.t.Underlying().(*types.Slice); ok {
+				if b, isB := sl.Elem().Underlying().(*types.Basic); isB && b.Kind() == types.Uint8 {
+					// a []byte inside an interface{} is written as base64 text and read back as a string
+					if bs, okv := x.v.([]value); okv {
+						if raw, conc := concBytes(bs); conc {
+							if bs == nil {
+								return iface{}
+							}
+							return iface{t: types.Typ[types.String], v: base64.StdEncoding.EncodeToString(raw)}
+						}
+					}
 				}
 			}
 			panic(unsupported(fmt.Sprintf("json of interface value holding %s", x.t)))
